@@ -1,5 +1,6 @@
 import Driver.Util
 import MpcVerif.Model.IoArg
+import MpcVerif.Model.IoInst
 
 /-!
 Line protocol of property C13 (one op per line, first word ignored):
@@ -12,6 +13,11 @@ Line protocol of property C13 (one op per line, first word ignored):
   c13 split  <n,n,..> <z>        IO.Split
   c13 inst   <info> <0|1> <size> Info.InstantiateWithSizes
   c13 ty     h<hex>              types.Parse
+  c13 insts  <ty> <n,n,..>       Info.InstantiateWithSizes on a type tree with struct members
+  c13 mainarg <ty> <strs>        InputSizes -> argument loop of Package.Compile -> flattenStruct -> IOArg.Parse
+
+  ty   := <tag><bits>.<arraySize>('c'|'u')@<offset> [ '[' ty ']' | '{' [ ty (';' ty)* ] '}' ]
+          ('c': IsConcrete; '{..}' exactly when the tag is t = struct)
 
   info := <tag><bits>.<arraySize>[ '[' info ']' ]     tag ∈ z b i u f s t a l p n
   arg  := info [ '{' arg (';' arg)* '}' ]
@@ -154,6 +160,67 @@ partial def showRVal : RVal → String
   | .slice n vs => s!"[{n}:" ++ ";".intercalate (vs.map showRVal) ++ "]"
   | .fmt v => s!"fmt:{v}"
 
+/-! ### type trees with struct members (`insts`, `mainarg`) -/
+
+mutual
+partial def pTy (cs : List Char) : Option (Ty × List Char) :=
+  match cs with
+  | c :: cs =>
+    match tagOfChar c with
+    | none => none
+    | some tag =>
+      match takeNat cs with
+      | some (bits, '.' :: cs) =>
+        match takeNat cs with
+        | some (n, fl :: '@' :: cs) =>
+          if fl != 'c' && fl != 'u' then none
+          else
+            let conc := fl == 'c'
+            match takeNat cs with
+            | some (off, '[' :: cs) =>
+              match pTy cs with
+              | some (el, ']' :: cs) => some (.elem tag conc bits n off el, cs)
+              | _ => none
+            | some (off, '{' :: '}' :: cs) => if tag == .struct then some (.struct conc bits n off [], cs) else none
+            | some (off, '{' :: cs) =>
+              if tag != .struct then none
+              else
+                match pTys cs with
+                | some (fs, cs) => some (.struct conc bits n off fs, cs)
+                | none => none
+            | some (off, cs) => if tag == .struct then none else some (.base tag conc bits n off, cs)
+            | none => none
+        | _ => none
+      | _ => none
+  | [] => none
+partial def pTys (cs : List Char) : Option (List Ty × List Char) :=
+  match pTy cs with
+  | some (a, ';' :: cs) =>
+    match pTys cs with
+    | some (as, cs) => some (a :: as, cs)
+    | none => none
+  | some (a, '}' :: cs) => some ([a], cs)
+  | _ => none
+end
+
+def parseTyTok (s : String) : Option Ty :=
+  match pTy s.toList with
+  | some (t, []) => some t
+  | _ => none
+
+partial def showTy : Ty → String
+  | .base t c b n o => s!"{charOfTag t}{b}.{n}{if c then "c" else "u"}@{o}"
+  | .elem t c b n o el => s!"{charOfTag t}{b}.{n}{if c then "c" else "u"}@{o}[{showTy el}]"
+  | .struct c b n o fs =>
+    s!"t{b}.{n}{if c then "c" else "u"}@{o}" ++ "{" ++ ";".intercalate (fs.map showTy) ++ "}"
+
+partial def showArg : Arg → String
+  | .mk t [] => showInfo t
+  | .mk t ms => showInfo t ++ "{" ++ ";".intercalate (ms.map showArg) ++ "}"
+
+def showStage : MainStage → String
+  | .sizes => "sizes" | .inst => "inst" | .parse => "parse"
+
 def handle (args : List String) : String :=
   match args with
   | ["parse", a, strs] =>
@@ -204,6 +271,20 @@ def handle (args : List String) : String :=
       match instantiate t (c == "1") size with
       | .ok t' => "ok " ++ showInfo t'
       | .error e => "err " ++ showErr e
+    | _, _ => "bad-op"
+  | ["insts", t, ns] =>
+    match parseTyTok t, (if ns == "-" then some [] else (ns.splitOn ",").mapM (·.toNat?)) with
+    | some t, some ns =>
+      match t.inst ns with
+      | .ok t' => "ok " ++ showTy t'
+      | .error e => "err " ++ showErr e
+    | _, _ => "bad-op"
+  | ["mainarg", t, strs] =>
+    match parseTyTok t, parseStrs strs with
+    | some t, some strs =>
+      match mainArg t strs with
+      | .ok (a, z) => s!"ok {showArg a} {z}"
+      | .error (st, e) => s!"err {showStage st} {showErr e}"
     | _, _ => "bad-op"
   | ["ty", h] =>
     match hexBytes (h.toList.drop 1) with
